@@ -130,9 +130,10 @@ def match_known(f, known):
 
 
 def write_evidence(prop, tier, seed, coverage, wall, violations, assumptions, level='model_checking'):
-    os.makedirs(os.path.join(VERIF, 'evidence'), exist_ok=True)
+    evdir = os.environ.get('VERIF_EVIDENCE_DIR', os.path.join(VERIF, 'evidence'))
+    os.makedirs(evdir, exist_ok=True)
     ev = {'property_id': prop, 'tier': tier, 'seed': seed, 'level': level, 'coverage': coverage,
           'assumptions': assumptions, 'wall_s': round(wall, 2), 'violations': violations}
-    tmp = os.path.join(VERIF, 'evidence', prop + '.json.tmp')
+    tmp = os.path.join(evdir, prop + '.json.tmp')
     json.dump(ev, open(tmp, 'w'), indent=1)
-    os.replace(tmp, os.path.join(VERIF, 'evidence', prop + '.json'))
+    os.replace(tmp, os.path.join(evdir, prop + '.json'))
